@@ -5,9 +5,13 @@ _sane = ("; per slot symbolic: key (one of the candidates), firstSlot in [0,N-1]
          "(every header passes DbCellHeader::sane(); version 1, no truncation, non-zero metadata); swap-metadata parser: verdict, stored swap_file_sz in [0,34] "
          "and stored flags symbolic, stored key = the slot header's key")
 _tail = ("; slot size 56 (40-byte header + 16 payload); loadingSteps() over all slots, then validationSteps() over every entry and every slot (opt_store_doublecheck=1); "
-         "images with a cross-entry nextSlot link and entries shorter than their stated size are excluded (see assumptions)")
+         "images with a cross-entry nextSlot link are excluded (known finding C57-cross-entry-link, see assumptions)")
 _r = ["none-readable", "one-readable", "two-readable"]
 _e = lambda n, b, r: dict(name=n, bounds=b + _tail, reach=r, sample_every=97)
+_known = dict(name="c57_known_cross_entry_link", known=True, reach=[], max_samples=0, sample_every=0,
+              bounds="KNOWN FINDING C57-cross-entry-link only: db of N=3 slots / 3 entries, slot 0 written for key B, slots 1 and 2 for key A; firstSlot in [0,2], nextSlot in [-1,2], "
+                     "payloadSize in [1,16], entrySize in [0,34] of every slot and the swap-metadata verdict/size/flags symbolic (sane headers, no truncation), restricted to images in which a "
+                     "loadable slot's nextSlot names a loadable slot whose key maps to a different anchor; strict oracle; its violations are listed in known_findings.json and printed as KNOWN-FINDING")
 SPEC = dict(
     harness="C57_rebuild.cc",
     units=[u for u in SBUF if u != "src/base/TextException.cc"] + ["src/fs/rock/RockSwapDir.cc", "src/fs/rock/RockDbCell.cc", "src/store/Disk.cc", "src/ipc/StoreMap.cc", "src/ipc/ReadWriteLock.cc", "src/ipc/mem/PageStack.cc",
@@ -17,18 +21,17 @@ SPEC = dict(
     native_libs=["-latomic"],   # __atomic_is_lock_free (IdSet constructor) for the native replay build
     entries=dict(
         quick=[_e("c57_2slots", "db of N=2 slots / 2 entries, 2 candidate keys (different anchors)" + _full, _r),
-               _e("c57_3slots_sane", "db of N=3 slots / 3 entries, 2 candidate keys (different anchors)" + _sane, _r)],
+               _e("c57_3slots_sane", "db of N=3 slots / 3 entries, 2 candidate keys (different anchors)" + _sane, _r), _known],
         thorough=[_e("c57_3slots_2keys", "db of N=3 slots / 3 entries, 2 candidate keys (different anchors)" + _full, _r),
                   _e("c57_3slots_collide_sane", "db of N=3 slots / 3 entries, 3 candidate keys, two of which map to the same anchor" + _sane, _r),
-                  _e("c57_4slots_1key", "db of N=4 slots / 4 entries, all slots carry the same key" + _sane, ["none-readable", "one-readable"])]),
-    timeout=dict(quick=600, thorough=2400),
+                  _e("c57_4slots_1key", "db of N=4 slots / 4 entries, all slots carry the same key" + _sane, ["none-readable", "one-readable"]), _known]),
+    timeout=dict(quick=900, thorough=7200),
     stubs=["Ipc::Mem::Segment replaced by a name->heap registry (no shm_open/mmap)",
            "lseek() inside RockRebuild.cc is redirected (macro) to a harness function that records the offset; storeRebuildLoadEntry() is a harness function that copies the db image from that offset into the buffer like read(2) (whole remainder of the file, or a short read for a truncated slot)",
            "storeRebuildParseEntry() (swap metadata parser, store_rebuild.cc + SwapMetaIn.cc) is a stub: symbolic verdict; on success key = one of the candidate keys, swap_file_sz = expectedSize when that is known else symbolic, KEY_PRIVATE clear (the real function's contract)",
            "the harness performs the steps of Rock::SwapDirRr::create(), Rock::SwapDir::init() and Rock::Rebuild::Start()/start() that create/attach the shared segments, the map, the free-slot index, the read buffer and LoadingParts (no file_open/xread of the db header, no event scheduling); Rock::Rebuild is constructed by its real constructor with placement new (no cbdata allocator); loadingSteps()/validationSteps() are called directly instead of through eventAdd/AsyncCall",
            "Store::Root().markedForDeletion() returns false", "base/TextException.cc is replaced by harness definitions whose what()/print() produce no text (the real ones format through std::ostringstream; what() is called by finalizeOrFree only to log the reason)", "compat/xstring.cc is the real file with its xstrdup renamed away (xstrdup is an engine model)", "std::__detail::_Prime_rehash_policy::_M_next_bkt/_M_need_rehash modelled in the harness for the bitcode build (reached only by AsyncJob's constructor registering the job)", "opt_foreground_rebuild=1 (no time-based pausing), opt_store_doublecheck=1", "paranoid_hit_validation off", "debugs() disabled"],
-    assumptions=["KNOWN-FINDING candidate 1 (excluded by vf_assume in the oracle): an entry whose inode header or swap metadata states a total size larger than the payload of all slots loaded for it is still 'loading' when validation starts; Rock::Rebuild::finalizeOrThrow() then compares the chain only with the payload seen (le.size), not with the known swap_file_sz, and makes the short entry readable (sizes do not add up to the entry size)",
-                 "KNOWN-FINDING candidate 2 (excluded by vf_assume on the image): a loadable slot whose nextSlot names a loadable slot that belongs to a different entry (anchor); finalizeOrThrow() follows the link into the foreign, not yet finalized slot: the thief becomes readable with a slot of another entry, which later also enters the free-slot index (victim freed), an unreachable slot stays mapped-but-unfinalized so that validateOneSlot()'s Must() escapes with squid -S, or the stolen slot is pushed to the free-slot index twice (PageStack assertion)"],
+    assumptions=["known finding C57-cross-entry-link (examined only by entry c57_known_cross_entry_link, excluded from the others by vf_assume on the image): a loadable slot (not truncated, sane header) whose nextSlot names a loadable slot that belongs to a different entry (anchor); Rock::Rebuild::finalizeOrThrow() follows the link into the foreign, not yet finalized slot: the thief becomes readable with a slot of another entry, which later also enters the free-slot index (victim freed), an unreachable slot stays mapped-but-unfinalized so that validateOneSlot()'s Must() escapes with squid -S, or the stolen slot is pushed to the free-slot index twice (PageStack assertion)"],
     outside="read(2)/lseek errors (I/O failures are not db contents); databases with more slots/keys than the bound; slot sizes other than 56; resumed (restarted mid-way) rebuilds; "
             "from-network entries stored while the rebuild runs (leIgnored); the bytes of the swap metadata themselves (decided by the parser stub's symbolic result; the parser is the subject of C10/C49)",
 )
